@@ -106,6 +106,9 @@ func Now() time.Time {
 	return s.now
 }
 
+// Since is time.Since on the virtual clock.
+func Since(t time.Time) time.Duration { return Now().Sub(t) }
+
 // Sleep is time.Sleep on the virtual clock.  The sleeper may be resumed at
 // any later scheduling step; the clock then jumps to its wake time.
 func Sleep(d time.Duration) {
@@ -137,6 +140,19 @@ func ChooseFree(n int, label string) int {
 		return 0
 	}
 	return s.take(n, true, true, false, label)
+}
+
+// ResetLocal replaces the running thread's local-history hash by h.  The
+// caller asserts that the thread's entire local state at this point is a
+// function of h (used by harness sources whose reader thread's state is just
+// the source position), so that executions which reach the same position by
+// different routes share one state key.
+func ResetLocal(h uint64) {
+	s := cur
+	if s == nil || s.running == nil || s.running.aborting {
+		return
+	}
+	s.running.hist = mix(hashString(s.running.name), h)
 }
 
 // Stop ends the execution at the next scheduling step (harness horizon).
